@@ -88,20 +88,11 @@ def Exceptions : List Row := [
 ]
 
 def KnownFindings : List Row := [
-  -- The tables were generated from the 1.0 manifest schema (grammar/Makefile); the shipped 1.2-cd1 manifest schema
-  -- adds manifest:start-key-generation and manifest:key-size.  Not repairable in the tables alone:
-  -- tests/testconverters.py::testConverters demands a converter in odf/attrconverters.py for every table attribute.
-  ⟨.children, n!"manifest:encryption-data", n!"manifest:start-key-generation"⟩,
-  ⟨.children, n!"manifest:start-key-generation", STAR⟩,
-  ⟨.attrs, n!"manifest:key-derivation", n!"manifest:key-size"⟩,
-  ⟨.attrs, n!"manifest:start-key-generation", n!"manifest:key-size"⟩,
-  ⟨.attrs, n!"manifest:start-key-generation", n!"manifest:start-key-generation-name"⟩,
-  ⟨.required, n!"manifest:start-key-generation", n!"manifest:start-key-generation-name"⟩,
-  ⟨.factory, n!"manifest:start-key-generation", NOITEM⟩,
   -- draw:concave is required in both alternatives of the schema's <choice>; the table does not list it, and
   -- tests/testlengths.py::test_calls / tests/teststyleref.py::testCalls pin the bare call draw.RegularPolygon().
   ⟨.required, n!"draw:regular-polygon", n!"draw:concave"⟩
-  -- (72 further rows were repaired in /repo by d71800a, nine factory rows by 9cb26c9 / 3268ede.)
+  -- (repaired in /repo and removed from this list: nine factory rows by 9cb26c9 / 3268ede, 72 table rows by
+  --  d71800a, the seven manifest-1.2 rows — manifest:start-key-generation, manifest:key-size — by the manifest repair.)
 ]
 
 def inExceptions (k : Kind) (e x : Nat) : Bool := prefixExcepted e || inRows Exceptions k e x
